@@ -44,6 +44,18 @@ func (f *Fixture) MkTx(st *state.StateDB, number *big.Int, op string) (*types.Tr
 	}
 	val := func() *ValFix { return f.Val(arg) }
 	switch name {
+	case "xferalmostall":
+		// P sends away all it has but the gas of this transfer, the gas of one more transfer and 100 wei.  A following
+		// "xfer" of P passes the pool (each pending tx is checked against the CURRENT balance on its own) and the
+		// pre-checks of the state transition (nonce, gas purchase) and then fails with vm.ErrInsufficientBalance AFTER the
+		// nonce was incremented and the gas was bought: the one ApplyTransaction error that leaves changes behind, which
+		// the builder has to undo (worker.commitTransaction: RevertToSnapshot).
+		keep := big.NewInt(2*21000*gasPrice + 100)
+		amt := new(big.Int).Sub(st.GetBalance(f.P.Addr), keep)
+		if amt.Sign() <= 0 {
+			amt = big.NewInt(1)
+		}
+		return sign(f.P, &f.D2.Addr, amt, 21000, nil)
 	case "xfer": // plain transfer P -> D2
 		return sign(f.P, &f.D2.Addr, big.NewInt(12345), 21000, nil)
 	case "store": // contract call that writes storage and carries value
